@@ -100,6 +100,34 @@ PROPS["C18"] = {
     "exhaustive_counter": "exhaustive_single", "exhaustive_text": "all key codes the enum knows x {press, release}, alone and in pairs with a neighbour",
 }
 
+PROPS["C13"] = {
+    "engine": "convert", "level": "translation_validation", "evaluations": ["programs"],
+    "rule": "one program = one layout written with alias / row / repeat-only shorthands, pushed through the real parse_layout_from_json + convert and compared block by block (one block per source entry, multiset inside a block) with an independent reference expansion; "
+            "systematic part: every printable US-QWERTY character at every position of every row, with no modifier, with RIGHTSHIFT and with a two-definition @shift alias, letters and repeat letters alike; generated part: 0-3 aliases with 1-3 definitions, 1-6 entries, every row name in both cases, all repeat forms, absorbing lists; "
+            "each compared program is also re-rendered in two equivalent spellings that must convert identically; programs whose expansion contains a key twice in one from/to are skipped (C14's territory); distinct_nontrivial counts distinct programs that use at least one shorthand",
+    "floors": {"quick": {"systematic_char_position_programs": 16000, "disagreements_checked": 100000, "feature_two_or_more_aliases": 1000, "feature_row_special_repeat": 1000, "feature_repeat_only": 1000, "feature_alias_on_output_side": 1000, "spelling_variants": 50000},
+               "thorough": {"systematic_char_position_programs": 16000, "disagreements_checked": 1000000, "feature_two_or_more_aliases": 10000, "spelling_variants": 500000}},
+    "assumptions": ["the reference expander (refexpand.rs) implements the README and the property statement; where the statement is silent two outcomes are accepted (what a one-standard-modifier alias definition itself maps to; a second repeat-only entry on a trigger only an earlier repeat-only entry created)",
+                    "row shorthands cover 13/12/12/11/10 keys (the backslash key is not part of row Q); longer letters are not generated here"],
+    "level_text": "Translation validation of the shorthand compiler: every generated program is converted by the real code and validated against an independent expansion; nothing is proved about programs not generated.",
+    "level_note": "Trusted: the reference expander and its own US-QWERTY table (self-tested on the README's worked example at start-up).",
+    "design_ref": "3 C13", "technique": "runtime monitoring: reference-model monitor (independent expander) over generated programs, metamorphic spelling variants",
+    "exhaustive_counter": "systematic_char_position_programs", "exhaustive_text": "94 characters x every position of the 5 rows x 3 trigger variants",
+}
+PROPS["C14"] = {
+    "engine": "load", "level": "exploration", "evaluations": ["inputs"],
+    "rule": "one evaluation = one input written to a file and loaded with the real load_layout_from_file under catch_unwind (structure-aware mutations of the corpus layouts and of generated valid programs, arbitrary JSON values over the layout vocabulary, raw byte strings: random, truncated, flipped, BOM, deep nesting, out-of-range numbers, duplicate object keys); "
+            "every accepted layout is installed with Mapper::for_layout and driven with a random ill-formed history plus release_all, again under catch_unwind; distinct_nontrivial = distinct accepted layouts + distinct rejection-message classes",
+    "floors": {"quick": {"accepted": 50000, "rejected": 50000, "accepted_mutated_corpus": 10000, "accepted_mutated_program": 10000, "steps_driven": 1000000},
+               "thorough": {"accepted": 500000, "rejected": 500000, "steps_driven": 10000000}},
+    "assumptions": ["panics are observed with catch_unwind (the harness is built with panic=unwind, overflow checks and debug assertions on); a process death by signal (stack overflow, abort) is reported by the driver with the last input as witness",
+                    "only the mapper is driven, not the event loop (a negative delay_ms makes the loop's Instant arithmetic panic; outside the property as stated)"],
+    "level_text": "Panic monitor around the real load pipeline and the mapper on tens of thousands (quick) / millions (thorough) of hostile inputs; held on what was generated.",
+    "level_note": "Trusted: catch_unwind as the observer of panics; the mutation engine only decides reach.",
+    "design_ref": "3 C14", "technique": "runtime monitoring: panic/abnormal-exit monitor under structure-aware mutation and byte-level fuzz inputs",
+    "abnormal_exit_is_violation": True,
+}
+
 ENGINES = [
     {"name": "mapper", "path": "/verif/harness/src/mapper_mon.rs", "serves_properties": ["C01", "C02", "C03", "C04", "C05", "C06", "C07", "C08", "C09", "C19"],
      "kind_free_text": "online monitors around Mapper::step/release_all; seeded random walks with frontier restarts from hook snapshots"},
@@ -109,6 +137,10 @@ ENGINES = [
      "kind_free_text": "real build_service_text output decoded by an independent ExecStart decoder"},
     {"name": "wire", "path": "/verif/harness/src/wire_mon.rs", "serves_properties": ["C18"],
      "kind_free_text": "real DevInputWriter/DevInputReader over a pipe with a libc::input_event byte oracle"},
+    {"name": "convert", "path": "/verif/harness/src/convert_mon.rs", "serves_properties": ["C13"],
+     "kind_free_text": "real parser+converter against the independent reference expander of refexpand.rs"},
+    {"name": "load", "path": "/verif/harness/src/load_mon.rs", "serves_properties": ["C14"],
+     "kind_free_text": "panic monitor around load_layout_from_file, Mapper::for_layout and Mapper::step"},
 ]
 
 NOT_APPLICABLE = [
